@@ -435,16 +435,25 @@ func generate(c *Ctx) []Replay {
 
 	// -- deterministic corpus: the witnesses of the refuted theorems and of the recorded findings, always first
 	huge := []byte{0xff, 0xff, 0xff, 0xff, 0xff, 0xff, 0xff, 0xff, 0xff, 0x01}
-	add("bytes", huge)                                                 // C13_total_bytes_refuted
-	add("wp", huge)                                                    // C13_total_wp_refuted
-	add("qr", append([]byte{0, 0, 0, 0, 0, 0, 0, 1}, huge...))         // C13_total_qr_refuted
-	add("apile", append([]byte{0, 0, 0, 0, 0, 0, 0, 1}, huge...))      // C13_total_apile_refuted
+	add("bytes", huge)                                                     // C13_total_bytes_refuted
+	add("wp", huge)                                                        // C13_total_wp_refuted
+	add("qr", append([]byte{0, 0, 0, 0, 0, 0, 0, 1}, huge...))             // C13_total_qr_refuted
+	add("apile", append([]byte{0, 0, 0, 0, 0, 0, 0, 1}, huge...))          // C13_total_apile_refuted
 	add("leu", nil, append([]byte{0x20, 0, 0, 0, 0, 0, 0, 0, 1}, huge...)) // C13_total_le_refuted
-	add("escape", []byte("\xef\xbf\xbd"))                              // C13_total_escape_unadvanced_refuted: the code returns
+	add("escape", []byte("\xef\xbf\xbd"))                                  // C13_total_escape_unadvanced_refuted: the code returns
 	expanding := []byte("a=\"" + strings.Repeat("\x80", 86) + "\"")
 	add("fromkv", expanding) // C13_stored_wf_raw_limit_refuted: the code refuses the text
 	add("wp", encWp("t=1", string(expanding), []apiEv{{1, "m", "", ""}}).buf)
 	add("stored-e2e", expanding)
+	// the one-byte length prefix: names and values of exactly 255 / 256 / 257 stored bytes, plain, quoted, back-quoted, with blanks around
+	for _, n := range []int{254, 255, 256, 257} {
+		z := strings.Repeat("z", n)
+		add("fromkv", []byte("a="+z))
+		add("fromkv", []byte(z+"=1"))
+		add("fromkv", []byte("a=\""+z+"\""))
+		add("fromkv", []byte("a=`"+z+"`"))
+		add("fromkv", []byte("a= "+z+" ,b=2"))
+	}
 	add("stored-e2e", []byte("a=b,c=\"d,e\""))
 	add("value", []byte{1, 'a'}, []byte("a")) // C13_check_value_refuted
 	add("check", []byte{1, 'a'})
